@@ -366,6 +366,14 @@ pub fn set_global_default(dispatcher: Dispatch) -> Result<(), SetGlobalDefaultEr
         }
         GLOBAL_INIT.store(INITIALIZED, Ordering::SeqCst);
         EXISTS.store(true, Ordering::Release);
+
+        // Without `std` there is no list of dispatchers: a callsite hit for
+        // the first time since this `Dispatch` was created was registered
+        // against the previous (no-op) global default. Re-evaluate the cached
+        // interests now that the global default has changed.
+        #[cfg(not(feature = "std"))]
+        crate::callsite::rebuild_interest_cache();
+
         Ok(())
     } else {
         Err(SetGlobalDefaultError { _no_construct: () })
